@@ -859,8 +859,12 @@ func WideThenThin(r *rand.Rand, first int) KeySet {
 	for j := 0; j < wide; j++ {
 		m[string([]byte{0x01, byte(3 + 7*j)})] = struct{}{}
 	}
+	// the label bitmaps are laid end to end (257 bits each): label byte b of the k-th inner node is bit 257k+1+b of
+	// the stream; b = (62 - k) mod 64 puts it on bit 63 of a word (the longest varint).  The i-th thin node is inner
+	// node k = i + 1 (root, wide node, then the thin ones); `slip` moves it off by a bit in some cases.
+	slip := []int{0, 0, 0, 1, 63}[r.Intn(5)]
 	for i := 1; i < first; i++ {
-		v := byte((62 - i) & 63)
+		v := byte((64*4 + 62 - (i + 1) + slip) & 63)
 		m[string([]byte{byte(1 + i), v})] = struct{}{}
 		m[string([]byte{byte(1 + i), v + 128})] = struct{}{}
 	}
